@@ -134,6 +134,24 @@ def analyse_one(args):
         else:
             notes.append(f"long input: {rl[0]} {str(rl[1])[:40]}")
         out.append((vname, over, "ok", notes, probs))
+    # short input (fewer candles than most default periods): still one entry per candle, and the sequential call must not be the
+    # only one that raises
+    ns = 10
+    rs = IR.run_indicator(repo, rel, fn, ns, True)
+    rn = IR.run_indicator(repo, rel, fn, ns, False)
+    probs = []
+    if rs[0] == "ok":
+        for f, v in IR.fields_of(rs[1]):
+            if isinstance(v, NA) and v.ndim == 1:
+                if len(v.data) != ns:
+                    probs.append((f, "short-input-length", f"sequential series '{f}' has {len(v.data)} entries for {ns} candles (input shorter than the default period)"))
+            elif not isinstance(v, (NA, list)):
+                probs.append((f, "short-input-not-a-series", f"sequential result of field '{f}' on {ns} candles is not a series ({type(v).__name__})"))
+        out.append(("short-input", {}, "ok", [], probs))
+    elif rs[0] == "raises" and rn[0] == "ok":
+        out.append(("short-input", {}, "ok", [], [("*", "short-input-sequential-raises", f"sequential=True raises {rs[1]} on {ns} candles while sequential=False returns a value")]))
+    else:
+        out.append(("short-input", {}, "undecided", f"sequential: {rs[0]} {str(rs[1])[:50]}", []))
     return fname, rel, out
 
 
